@@ -6,6 +6,8 @@ From PV Require Export Models.Convert.   (* case files name the constructors of 
 Record pobs := {
   po_steps : list step;
   po_raw   : bool;    (* != path *)
+  po_stmt  : bool;    (* not an output: the statement `- path.push('v')`, rendered for its effect on the list that
+                         the conversion made for this render; po_steps is the path of the list *)
   po_class : nat;     (* what Go did: 0 = output, 1 = execution error / panic, 2 = anything else (load error ...) *)
   po_out   : bytes;   (* output bytes when po_class = 0 *)
 }.
@@ -25,7 +27,107 @@ Definition agree11 (d : gv) (po : pobs) : bool :=
   | RUnmod => false
   end.
 
-Definition judge_path (d : gv) (po : pobs) : nat :=
+(* ------------------------------------------------------------------ names whose first letter is not ASCII
+   Go exports a name whose first LETTER is upper-case (Ärger, Ωmega, Жук) and lowerFirst lowers the first RUNE.
+   Models.Convert states the name mapping on ASCII (its domain excludes other initials); here it is extended to the
+   first rune for the two-byte letters of Latin-1 (U+00C0..U+00DE without the multiplication sign), Greek
+   (U+0391..U+03A9) and Cyrillic (U+0410..U+042F): [lower_rune]. A data tree that has such member names is judged on
+   its NORMAL FORM [norm d] - every exported field name and method name with its first rune lowered, after which the
+   ASCII mapping of S and M is the identity on these names - by the same oracle and model, with the ASCII
+   restriction on names lifted ([dom_wide]). An initial that lower_rune does not know: declined. *)
+Definition lower_rune (s : bytes) : bytes :=
+  match s with
+  | c1 :: c2 :: r =>
+    let a := N_of_ascii c1 in
+    let b := N_of_ascii c2 in
+    if N.eqb a 195 then                                      (* C3 80..9E: U+00C0..U+00DE *)
+      if N.leb 128 b && N.leb b 158 && negb (N.eqb b 151) then c1 :: ascii_of_N (b + 32) :: r else s
+    else if N.eqb a 206 then                                 (* CE 91..A9: U+0391..U+03A9 *)
+      if N.leb 145 b && N.leb b 159 then c1 :: ascii_of_N (b + 32) :: r
+      else if N.leb 160 b && N.leb b 169 && negb (N.eqb b 162) then ascii_of_N 207 :: ascii_of_N (b - 32) :: r
+      else s
+    else if N.eqb a 208 then                                 (* D0 90..AF: U+0410..U+042F *)
+      if N.leb 144 b && N.leb b 159 then c1 :: ascii_of_N (b + 32) :: r
+      else if N.leb 160 b && N.leb b 175 then ascii_of_N 209 :: ascii_of_N (b - 32) :: r
+      else s
+    else s
+  | _ => s
+  end.
+
+(* the mapping leaves every name with an ASCII initial alone (there the ASCII mapping of Models.Convert applies) *)
+Lemma lower_rune_ascii : forall n, ascii_initial n = true -> lower_rune n = n.
+Proof.
+  intros [|c1 [|c2 r]]; try reflexivity.
+  unfold ascii_initial, is_ascii, lower_rune. intro H. apply N.ltb_lt in H. cbv zeta.
+  destruct (N.eqb_spec (N_of_ascii c1) 195) as [E|_]; [rewrite E in H; apply N.ltb_lt in H; discriminate|].
+  destruct (N.eqb_spec (N_of_ascii c1) 206) as [E|_]; [rewrite E in H; apply N.ltb_lt in H; discriminate|].
+  destruct (N.eqb_spec (N_of_ascii c1) 208) as [E|_]; [rewrite E in H; apply N.ltb_lt in H; discriminate|].
+  reflexivity.
+Qed.
+
+(* spot checks against the Unicode tables: upper-case letters of the three ranges, the multiplication sign and
+   letters that are lower-case already *)
+Example lower_rune_examples :
+  map lower_rune [B "Ärger"; B "Übersicht"; B "Þing"; B "Àb"; B "×x"; B "ßa"; B "ärger"; B "Ωmega"; B "Αb"; B "Πi"; B "Σum";
+                  B "Жук"; B "Яблоко"; B "Аб"; B "Title"; B "Ö"]
+  = [B "ärger"; B "übersicht"; B "þing"; B "àb"; B "×x"; B "ßa"; B "ärger"; B "ωmega"; B "αb"; B "πi"; B "σum";
+     B "жук"; B "яблоко"; B "аб"; B "Title"; B "ö"].
+Proof. vm_compute. reflexivity. Qed.
+
+Fixpoint norm (g : gv) : gv :=
+  match g with
+  | GSlice l => GSlice (map norm l)
+  | GMap l => GMap (map (fun kv => (fst kv, norm (snd kv))) l)
+  | GStruct fs vm pm =>
+    GStruct (map (fun f => match f with (n, e, v) => ((if e : bool then lower_rune n else n), e, norm v) end) fs)
+            (map (fun m => match m with (n, sg, r) => (lower_rune n, sg, norm r) end) vm)
+            (map (fun m => match m with (n, sg, r) => (lower_rune n, sg, norm r) end) pm)
+  | GPtr v => GPtr (norm v)
+  | GIface nm v => GIface nm (norm v)
+  | GFunc sg r => GFunc sg (norm r)
+  | _ => g
+  end.
+
+(* P holds of the name of every exported field and of every method in the tree *)
+Fixpoint names_all (P : bytes -> bool) (g : gv) : bool :=
+  match g with
+  | GSlice l => forallb (names_all P) l
+  | GMap l => forallb (fun kv => names_all P (snd kv)) l
+  | GStruct fs vm pm =>
+    forallb (fun f => match f with (n, e, v) => (negb e || P n) && names_all P v end) fs
+    && forallb (fun m => match m with (n, _, r) => P n && names_all P r end) vm
+    && forallb (fun m => match m with (n, _, r) => P n && names_all P r end) pm
+  | GPtr v => names_all P v
+  | GIface _ v => names_all P v
+  | GFunc _ r => names_all P r
+  | _ => true
+  end.
+
+Definition has_wide (d : gv) : bool := negb (names_all ascii_initial d).
+Definition wide_known (d : gv) : bool :=
+  names_all (fun n => ascii_initial n || negb (beqb (lower_rune n) n)) d.
+
+Definition wide_name (n : bytes) : bool := negb (beqb n []) && negb (beqb n (B "__assign")).
+Definition dom_wide (d : gv) (p : list step) (raw : bool) : bool :=
+  forallb (fun s => match s with Field n => wide_name n | _ => true end) p
+  && match p with Field n :: _ => negb (mem n reserved_top) | _ => false end
+  && shape_ok d p && fold_free d p && negb (top_method d p) && negb (raw_undefined d p raw).
+
+(* a statement `- xs.push('v')`: it prints nothing and is no error; what it does to the list belongs to the render
+   that ran it (the spec of the other paths and values knows no such statement: C11_history) *)
+Definition reaches_list (d : gv) (p : list step) : bool :=
+  match go_walk d p with
+  | Some g => match strip g with GSlice _ | GSliceNil => true | _ => false end
+  | None => false
+  end.
+
+(* in domain when the path reaches a list of the page data (nil and empty ones included); a push on anything else
+   (an absent name, a leaf) is not a statement of this check: declined *)
+Definition judge_stmt (d : gv) (po : pobs) : nat :=
+  if negb (reaches_list d (po_steps po)) then v_unmodelled
+  else if Nat.eqb (po_class po) 0 && beqb (po_out po) [] then v_agree else v_violation.
+
+Definition judge_with (dom : gv -> list step -> bool -> bool) (d : gv) (po : pobs) : nat :=
   let p := po_steps po in
   let raw := po_raw po in
   match run d p raw with
@@ -33,7 +135,7 @@ Definition judge_path (d : gv) (po : pobs) : nat :=
   | _ =>
     let ok := oracle11 d po in
     let ag := agree11 d po in
-    if dom_C11 d p raw then verdict true ok ag
+    if dom d p raw then verdict true ok ag
     else if ag then
       if ok then v_agree
       else if negb (fold_free d p) then v_known 1       (* F-C11-a *)
@@ -42,6 +144,12 @@ Definition judge_path (d : gv) (po : pobs) : nat :=
       else v_agree                                      (* off-domain quirk, reproduced by the model *)
     else v_drift
   end.
+
+Definition judge_path (d : gv) (po : pobs) : nat :=
+  if po_stmt po then judge_stmt (if has_wide d then norm d else d) po
+  else if has_wide d then
+    if wide_known d then judge_with dom_wide (norm d) po else v_unmodelled
+  else judge_with dom_C11 d po.
 
 (* one code per case: violation > drift > known (smallest class) > unmodelled > agree *)
 Definition rank (v : nat) : nat :=
@@ -61,8 +169,9 @@ Definition judge (h : list case11) : nat :=
 
 (* diagnostics for replays: per value, per path (model, spec text, in-domain, verdict) *)
 Definition explain_value (c : case11) :=
-  map (fun po => (run (data c) (po_steps po) (po_raw po),
-                  render (po_raw po) (leaf_text (go_path (data c) (po_steps po))),
-                  dom_C11 (data c) (po_steps po) (po_raw po),
+  let d := if has_wide (data c) then norm (data c) else data c in
+  map (fun po => (run d (po_steps po) (po_raw po),
+                  render (po_raw po) (leaf_text (go_path d (po_steps po))),
+                  (if has_wide (data c) then dom_wide else dom_C11) d (po_steps po) (po_raw po),
                   judge_path (data c) po)) (paths c).
 Definition explain (h : list case11) := map explain_value h.
